@@ -100,7 +100,7 @@ def _accumulation(ctx, fn, h):
     return None
 
 def aggregates_by_evaluation(ctx):
-    """get_aggregate_value evaluated (finite interpreter, helpers included) for every variant of Function on 10 buffers and
+    """get_aggregate_value evaluated (finite interpreter, helpers included) for every variant of Function on 12 buffers and
     compared with the textbook value: COUNT = rows, SUM / MIN / MAX exact over the integer cells (values beyond 2^53
     included), AVG = SUM / COUNT as a real number, VAR_* / STDDEV_* by the population / sample formulas (relative 1e-9).
     Conventions the property does not fix are left out: empty buffer, sample statistics of one row, AVG and the
@@ -115,6 +115,9 @@ def aggregates_by_evaluation(ctx):
     full = {"one": [5], "two": [3, 7], "dup": [4, 4, 4], "mixed": [10, 1, 6, 2], "unsorted": [9, 2, 11, 2, 5], "big": [B + 1, B + 1, 3],
             "zero": [0, 0, 12], "near": [1000000001, 1000000002, 1000000003]}
     holes = {"hole-middle": [3, None, 7], "hole-first": ["", 8, 2]}
+    # values below zero (MIN(-size), MAX(size - 300)): decided for COUNT / MIN / MAX only - what SUM and the moments make of a
+    # negative cell is not fixed by the property (an integer column has none)
+    signed = {"negative": [-5, 3, -250], "all-negative": [-7, -2]}
     variants = sorted(ctx.prog.adt_variants("function::Function") or [])
     if len(variants) < 40:
         return False
@@ -128,7 +131,9 @@ def aggregates_by_evaluation(ctx):
         n += 1
         if bool(ia) != (v in oracles.AGGREGATES):
             isagg_bad.append("%s: %s" % (v, ia))
-        for label, vals in list(full.items()) + list(holes.items()):
+        for label, vals in list(full.items()) + list(holes.items()) + list(signed.items()):
+            if label in signed and v in oracles.AGGREGATES and v not in ("Count", "Min", "Max"):
+                continue
             ints = [x for x in vals if isinstance(x, int)]
             if v in oracles.AGGREGATES:
                 cnt = len(vals)
@@ -172,7 +177,7 @@ def aggregates_by_evaluation(ctx):
             ctx.obligation(ok)
             if not ok:
                 bad.append((v, "%s over the rows %s is `%s`, expected %s" % (v.upper(), vals, got, want)))
-    ctx.covered("get_aggregate_value evaluated for every Function variant on 10 buffers against the textbook value; is_aggregate_function on every variant",
+    ctx.covered("get_aggregate_value evaluated for every Function variant on 12 buffers against the textbook value; is_aggregate_function on every variant",
                 n, distinct_keys=variants, exhaustive=True)
     seen = set()
     for v, msg in bad:
